@@ -65,9 +65,11 @@ def run(ctx):
     props = "ExactlyOneBatch\n    DataChained\n    NothingPending\n    QueueFollows"
     core.tlc_design(ctx, "design-watchers", "Watchers", None, cfgtext=CFG % ("Spec", 2, 2, BOTH, props), workers=core.NCPU, timeout=3000)
     if not q:
-        # three deliveries: one run per value of the option (the mode never changes within a behaviour)
+        # three deliveries and one swap, one run per value of the option (the mode never changes within a behaviour); with two
+        # swaps the 135 events give more than 50 M states per mode (measured: the run stalls at 37 M with the default heap); the
+        # second swap is explored with two deliveries above and with eight in the simulated schedules
         for mode in ("{FALSE}", "{TRUE}"):
-            core.tlc_design(ctx, "design-watchers-3-" + mode.strip("{}").lower(), "Watchers", None, cfgtext=CFG % ("Spec", 3, 2, mode, props),
+            core.tlc_design(ctx, "design-watchers-3-" + mode.strip("{}").lower(), "Watchers", None, cfgtext=CFG % ("Spec", 3, 1, mode, props),
                             workers=core.NCPU, timeout=3000)
     core.build_harness(ctx, ["watchx"])
     core.build_harness(ctx, ["watchx"], race=True)
